@@ -7,7 +7,7 @@
 // lean/BfeVerif/C42/Driver.lean for the frame language), feeds the result followed by EOF to the
 // real server Conn and calls Conn.Read until it returns an error.
 // Result: `d=<bytes delivered> e=<first error> q=<records the receiving half accepted> a=<bytes delivered by four
-// further Reads after that error> r=<their errors>`.
+// further Reads after that error> r=<their errors> w=<first fatal alert the client's receiving half got from the server>`.
 package main
 
 import (
@@ -556,7 +556,26 @@ func exec(op string) string {
 			}
 			later = strings.Join(ls, ",")
 		}
-		return fmt.Sprintf("d=%s e=%s q=%d a=%s r=%s", vh.Hex(got), e, p.srv.VerifC42InSeq()-seq0, vh.Hex(after), later)
+		// what did the server tell its peer?  Hand everything it wrote after the switch to the client's real
+		// receiving half: a fatal alert arrives as "remote error"; warning alerts are dropped by the client.
+		aw := "none"
+		p.sw.mu.Lock()
+		wrote := append([]byte(nil), p.sw.sent...)
+		p.sw.mu.Unlock()
+		if len(wrote) > 0 {
+			go func() {
+				p.sw.Conn.Write(wrote)
+				p.sw.Conn.Close()
+			}()
+			p.cpipe.SetReadDeadline(time.Now().Add(30 * time.Second))
+			_, cerr := p.cli.Read(make([]byte, 64))
+			if k, a := bfe_tls.VerifC42ErrClass(cerr); k == "remote" {
+				aw = strconv.Itoa(a)
+			} else if cerr != io.EOF && cerr != nil {
+				aw = "other:" + strings.ReplaceAll(cerr.Error(), " ", "_")
+			}
+		}
+		return fmt.Sprintf("d=%s e=%s q=%d a=%s r=%s w=%s", vh.Hex(got), e, p.srv.VerifC42InSeq()-seq0, vh.Hex(after), later, aw)
 	})
 }
 
@@ -896,6 +915,9 @@ func main() {
 				{"o0", "o1", "z1703"},
 				{"o0", "p17." + v + ".18433.0"},
 			} {
+				if len(w) > 1 && w[1] == "v1."+v {
+					w = []string{w[0], "v1.0305", w[2]} // 0300 is not a modification on an SSL 3.0 connection
+				}
 				emit(render(c, 4096, sent, w))
 			}
 			// the same tamperings with the transport cutting the stream after every byte / with empty reads and data+EOF
@@ -911,7 +933,7 @@ func main() {
 			// every critical body length of the family: injected (as application data, alert, handshake) in front of
 			// and between the real records, and as a real record shrunk to that length
 			for _, n := range criticalLens(c) {
-				for _, w := range [][]string{
+				for wi, w := range [][]string{
 					{fmt.Sprintf("j17.%s.%d", v, n), "o0", "o1"},
 					{"o0", fmt.Sprintf("j17.%s.%d", v, n), "o1", "o2", "o3"},
 					{"o0", fmt.Sprintf("j15.%s.%d", v, n), "o1"},
@@ -919,6 +941,9 @@ func main() {
 					{"o0", fmt.Sprintf("s1.%d", n), "o2", "o3"},
 					{fmt.Sprintf("s0.%d", n), "o1"},
 				} {
+					if !thorough && (wi == 3 || wi == 5) {
+						continue
+					}
 					emit(render(c, 512, sent, w))
 				}
 			}
